@@ -11,6 +11,7 @@ pub mod abs;
 pub mod certgen;
 pub mod sim;
 pub mod replica;
+pub mod netsim;
 
 use std::{cell::RefCell, collections::BTreeMap, fs::File, io::{BufWriter, Write}, path::PathBuf};
 
